@@ -38,6 +38,11 @@ namespace nmtools::index
             at(result,dst_group_axis)   = groups;
             at(result,dst_group_axis+1) = n_channel_per_group;
 
+            // keep the batch extents (the axes before the channel axis)
+            for (nm_index_t i=0; i<(nm_index_t)src_dim-(nm_index_t)n_planes-1; i++) {
+                at(result,i) = at(src_shape,i);
+            }
+
             for (nm_index_t i=1; i<=nm_index_t(n_planes); i++) {
                 at(result,-i) = at(src_shape,-i);
             }
